@@ -11,6 +11,7 @@ mod msgen;
 mod special;
 mod special_msm;
 mod drv_frame;
+mod drv_rt;
 mod frames;
 mod util;
 mod value;
@@ -35,6 +36,7 @@ fn main() {
         ("record", "history") => drv_build::rec_history(&a, &mut out),
         ("record", "decode") => drv_decode::rec_decode(&a, &mut out),
         ("record", "classify") => drv_decode::rec_classify(&a, &mut out),
+        ("record", "roundtrip") => drv_rt::rec_roundtrip(&a, &mut out),
         _ => {
             eprintln!("usage: rtcm_conf record|replay <family> key=value...");
             std::process::exit(2);
